@@ -837,12 +837,24 @@ func (vfs *OrefaFS) Rename(oldname, newname string) error {
 		return &os.LinkError{Op: op, Old: oldname, New: newname, Err: err}
 	}
 
+	if nChildOk && nChild == oChild {
+		// oldname and newname are hard links to the same file: nothing to do.
+		return nil
+	}
+
 	nParent.mu.Lock()
 	defer nParent.mu.Unlock()
 
 	if nParent != oParent {
 		oParent.mu.Lock()
 		defer oParent.mu.Unlock()
+	}
+
+	if nChildOk {
+		// the file that newname referred to loses this link.
+		nChild.mu.Lock()
+		nChild.remove()
+		nChild.mu.Unlock()
 	}
 
 	nParent.addChild(nFileName, oChild)
